@@ -116,6 +116,15 @@ CLAIMED = {
             '(thorough 6) symbolic bytes; <= 3 (thorough 6) elements present. loadz/load_persistant (documented private) are outside; '
             'RecursionError is an ordinary exception.',
             'DESIGN.md §6 C14'),
+    'C15': ('Annotation shapes are enumerated (basic types, nested Serializable, enum, List/Set/Dict/Tuple of these with int, str '
+            'or enum keys, sizes 0..2 and None); every leaf value is symbolic (unbounded ints, opaque strings, float tokens with a '
+            'symbolic NaN flag, Bool terms, enum members by symbolic index). The real toJson/fromJson/dumps/loads are executed; '
+            'json.dumps/loads are modelled as the identity on plain JSON data with object keys stringified (str(int) <-> int(str) '
+            'inverse) and a TypeError exactly where json.dumps would refuse. Proven per path: field-wise deep equality for both '
+            'routes, containers come back with their annotated type, toJson yields only dict/list/str/int/float/bool/None.',
+            'Trusted: sx engine, the json model (its contract is the documented behaviour of the json module on plain data). '
+            'Outside: bytes fields (not JSON), lower-case enum member names (documented), Tuple[T, ...], more than one level of generics.',
+            'DESIGN.md §6 C15'),
 }
 
 NOT_YET = 'check not built yet in this round (planned: see DESIGN.md §6); not claimed'
